@@ -215,12 +215,12 @@ def _cycle_scenarios(full=True):
     return rows
 
 
-def _wb_outcome(ctx, cells, start):
+def _wb_outcome(ctx, cells, start, wb=None, **kw):
     """('value', v) | ('raise', class, message, formula evaluations) | ('unbounded', why)"""
     from . import workbook as W
     from . import values as V
     from xlsa.consteval import MsgRef, Ref
-    wb = W.Workbook(ctx, cells)
+    wb = wb if wb is not None else W.Workbook(ctx, cells, **kw)
     try:
         out = wb.evaluate(start if '!' in start else 'Sheet1!' + start)
     except Unmodelled as exc:
@@ -240,6 +240,7 @@ def rule_5(ctx):
     function arguments and ranges, entered anywhere) ends in an exception whose text reports the cycle, after each formula was
     entered at most once; diamonds over zero / blank / FALSE / empty-text precedents evaluate; a doubling chain costs one
     evaluation per cell whatever the value at its end; the text of a failure report grows additively with the chain."""
+    from . import workbook as W
     ev_fn = ctx.mod('evaluator').func('Evaluator.evaluate')
     n = 0
     for label, cells, start in _cycle_scenarios(full=ctx.tier != 'quick'):
@@ -274,6 +275,35 @@ def rule_5(ctx):
         n += 1
         ctx.expect(res[0] == 'raise' and bool(_CYCLE_WORD.search(res[1] + ' ' + res[2])), ev_fn, f'cycle reported: self reference on sheet {second} reached from {first}',
                    f'{first}!A1 of {cells} ends in {res[:3]!r}: {second}!A2 refers to itself and that is a cycle whatever sheet the evaluation started on')
+    # long acyclic chains are not cycles, however long; what fails at their end is what is reported
+    for length in (140, 180):
+        for tail, tlabel in ((1, 'a number'), ('=NOSUCHFUNC(1)', 'an unknown function')):
+            cells = {f'A{i}': f'=A{i + 1}+1' for i in range(1, length)}
+            cells[f'A{length}'] = tail
+            res, wb = _wb_outcome(ctx, cells, 'A1', max_depth=3000, max_items=2000)
+            n += 1
+            if tail == 1:
+                ok = res[0] == 'value' and res[1] == ('Number', length)
+            else:
+                ok = res[0] == 'raise' and not _CYCLE_WORD.search(res[1] + ' ' + res[2])
+            ctx.expect(ok, ev_fn, f'acyclic chain of {length} cells ending in {tlabel}',
+                       f'A1 = A2+1, ..., A{length - 1} = A{length}+1, A{length} = {tail}: evaluating A1 ends in {tuple(str(x)[:90] for x in res[:3])!r}; an acyclic model never '
+                       'produces a cycle report' + (f', A1 is {length}' if tail == 1 else ' - the failure is the unknown function'))
+    # a cycle that appears later: the model is edited after cells have been evaluated (lazily evaluated branches change their minds)
+    for first_evals in (('A1', 'B1'), ('A1',), ('B1',), ()):
+        cells = {'A1': '=IF(C1,B1,D1)', 'B1': '=A1+1', 'C1': 0, 'D1': 7, 'E1': '=IF(C1,E1,1)+A1'}
+        wb = W.Workbook(ctx, cells)
+        seen_first = [wb.value('Sheet1!' + a) for a in first_evals]
+        wb.set('Sheet1!C1', 1)
+        for start in ('A1', 'E1'):
+            before = wb.calls('evaluator', 'evaluate')
+            res, _ = _wb_outcome(ctx, cells, start, wb=wb)
+            n += 1
+            ok = res[0] == 'raise' and bool(_CYCLE_WORD.search(res[1] + ' ' + res[2])) and res[3] - before <= 12
+            ctx.expect(ok, ev_fn, f'cycle closed by an edit after {list(first_evals) or "no"} evaluation(s): {start}',
+                       f'{cells}: after evaluating {list(first_evals)} (values {seen_first!r}) C1 is set to 1, which closes A1 -> B1 -> A1; evaluating {start} then ends in '
+                       f'{tuple(str(x)[:90] for x in res[:3])!r} after {res[-1] - before if res[0] != "unbounded" else "?"} cell evaluations: a cell that depends on itself '
+                       'must end promptly in an exception that reports the cycle, whatever was evaluated before')
     # doubling chains: one evaluation per cell whatever the end value, also when a failure is met last
     depth = 9
     for plabel, pval in (('1', 1), ('0', 0), ('a blank', None), ('FALSE', '=1>2'), ('an empty text', '=""'), ('an error value', '=1/0')):
@@ -303,7 +333,7 @@ def rule_5(ctx):
     ctx.expect(ok, ev_fn, 'failure report grows additively with the chain',
                f'the text of the failure report of a chain of 4 / 8 / 12 cells has {sizes} characters: each level may add its own line, it must not '
                'multiply what it received (repr() of the caught exception doubles escapes at every level)')
-    ctx.floor(55, 'workbook scenarios')
+    ctx.floor(70, 'workbook scenarios')
 
 
 RULES = [
